@@ -167,20 +167,23 @@ def rule_consume(ctx: Ctx) -> None:
     tb_ret = [m for (m, l) in tests[0].succ if l == "true"]
     fb_ret = [m for (m, l) in tests[0].succ if l == "false"]
 
+    from .. import norm as N
+
     def ret_expr(nodes):
         for n in g.reach(nodes, include_sources=True, labels=C.NO_EXC):
             if n.kind == "stmt" and isinstance(n.ast, ast.Return):
-                return ast.unparse(n.ast.value).replace(" ", "")
+                return N.canon(N.expand(fn, n.ast.value)).replace(" ", "")
         return None
     rt, rf = ret_expr(tb_ret), ret_expr(fb_ret)
     wait = "-self._tokens/self._tokens_per_period*self._period_duration"
+    norm_wait = lambda t: None if t is None else t.replace("(-self._tokens)", "-self._tokens")  # noqa: E731
     cells_ok = True
     rows = {}
     for cell, truth in tt.items():
         val = rt if truth else rf
         rows[cell] = val
         if cell == "(-inf,0)":
-            cells_ok &= val == wait
+            cells_ok &= norm_wait(val) == wait
         else:
             cells_ok &= val in ("0.0", "0")
     ctx.sample({"rule": "C20.2", "returned value per cell of the token count": rows})
